@@ -694,9 +694,9 @@ func (s *scope) interpretOp(obj pyObject, op OpExpression) pyObject {
 	case Not:
 		return s.negate(obj)
 	case Equal:
-		return newPyBool(reflect.DeepEqual(obj, s.interpretExpression(op.Expr)))
+		return newPyBool(equal(obj, s.interpretExpression(op.Expr)))
 	case NotEqual:
-		return newPyBool(!reflect.DeepEqual(obj, s.interpretExpression(op.Expr)))
+		return newPyBool(!equal(obj, s.interpretExpression(op.Expr)))
 	case Is:
 		return s.interpretIs(obj, op)
 	case IsNot:
@@ -712,6 +712,35 @@ func (s *scope) interpretOp(obj pyObject, op OpExpression) pyObject {
 	default:
 		return s.operator(op.Op, obj, s.interpretExpression(op.Expr))
 	}
+}
+
+// equal implements the == operator. Lists and dicts are compared by content, so a frozen list or
+// dict (as imported through subinclude) equals an ordinary one with the same items.
+func equal(a, b pyObject) bool {
+	if la, ok := asList(a); ok {
+		lb, ok := asList(b)
+		if !ok || len(la) != len(lb) {
+			return false
+		}
+		for i := range la {
+			if !equal(la[i], lb[i]) {
+				return false
+			}
+		}
+		return true
+	} else if da, ok := asDict(a); ok {
+		db, ok := asDict(b)
+		if !ok || len(da) != len(db) {
+			return false
+		}
+		for k, v := range da {
+			if v2, present := db[k]; !present || !equal(v, v2) {
+				return false
+			}
+		}
+		return true
+	}
+	return reflect.DeepEqual(a, b)
 }
 
 func (s *scope) operator(op Operator, obj, operand pyObject) pyObject {
